@@ -42,6 +42,22 @@ Fixpoint traverse_each (fuel : nat) (nodes : list node) (conn : list nat) (tail 
 Definition each (nodes : list node) (conn : list nat) (tail : nat) : list nat :=
   traverse_each (S (List.length nodes)) nodes conn tail 0 [].
 
+(* a connected segment: every node but the head has a first port fed by an earlier node's existing output port, every node
+   but the head has made its subscriptions, and whatever subscribes to the tail is a trained node *)
+Definition node_ports (nd : node) : list (nat * nat) := match nkind nd with KApply ins => ins | KTrain tr lb => [tr; lb] end.
+
+Definition connected_b (nodes : list node) (conn : list nat) (tail : nat) : bool :=
+  negb (Nat.eqb (List.length nodes) 0)
+  && forallb (fun jn =>
+        let '(i, nd) := jn in
+        (Nat.eqb i 0 || match node_ports nd with
+                        | ip :: _ => Nat.ltb (fst ip) i && match nth_error nodes (fst ip) with Some ndj => Nat.ltb (snd ip) (nszout ndj) | None => false end
+                        | [] => false
+                        end)
+        && forallb (fun ip => negb (Nat.eqb (fst ip) tail) || is_train nd) (node_ports nd))
+      (combine (seq 0 (List.length nodes)) nodes)
+  && forallb (fun i => existsb (Nat.eqb i) conn) (seq 1 (List.length nodes - 1)).
+
 (* ---- correspondence: the recorded order of Table.add calls is the modelled traversal ---------------------- *)
 Inductive ecase := ECase (f : fcase) (conn : list nat).
 Definition check_ecase (e : ecase) : bool :=
@@ -49,7 +65,7 @@ Definition check_ecase (e : ecase) : bool :=
   | ECase f conn =>
       check_fcase_wf f
       && match f with
-         | FCase _ (CTable nodes _ visit tail (Some _) _) => nats_eqb (each nodes conn tail) visit
+         | FCase _ (CTable nodes _ visit tail (Some _) _) => nats_eqb (each nodes conn tail) visit && connected_b nodes conn tail
          | _ => true
          end
   end.
